@@ -264,6 +264,8 @@ Step(s, r, k) ==
     [] r.op = "SignHolderRecovery"  -> SignHolderRecovery(s)
     [] r.op = "SignHolderRedundant" -> SignHolderRedundant(s, r.n, r.c)
     [] r.op = "SignMutualClose"     -> SignMutualClose(s, r.c)
+    \* the raw-transaction (phase 1) entry point, given the canonical closing transaction of content c
+    [] r.op = "SignMutualCloseRaw"  -> SignMutualClose(s, r.c)
     [] r.op = "SignCp"              -> SignCp(s, r.n, r.t, r.c)
     [] r.op = "ValidateRevocation"  -> ValidateRevocation(s, r.n, [t |-> r.t, n |-> r.m],
                                                           k.atomicRevocation)
@@ -375,6 +377,7 @@ Requests(N, HC, CC, TT) ==
   \cup {[op |-> "SignHolderRecovery"]}
   \cup {[op |-> "SignHolderRedundant", n |-> n, c |-> c] : n \in 0..N + 2, c \in HC}
   \cup {[op |-> "SignMutualClose", c |-> c] : c \in CC}
+  \cup {[op |-> "SignMutualCloseRaw", c |-> c] : c \in CC}
   \cup {[op |-> "SignCp", n |-> n, t |-> t, c |-> c] : n \in 0..N + 1, t \in TT, c \in CC}
   \cup {[op |-> "ValidateRevocation", n |-> n, t |-> t, m |-> m] :
             n \in 0..N, t \in TT, m \in 0..N}
